@@ -137,7 +137,8 @@ def bits(x):
 def harness_line(c):
     if c["op"] == "trace":
         st = c["steps"]
-        return "trace %s %s %d %s" % (c["a"], c["b"], len(st), " ".join("%s %d %d" % (o, i, j) for (o, i, j) in st))
+        line = "trace %s %s %d %s" % (c["a"], c["b"], len(st), " ".join("%s %d %d" % (o, i, j) for (o, i, j) in st))
+        return line + (" " + c["route"] if c.get("route") else "")
     return "%s %s %s %s" % (c["op"], c["a"], c["b"], c.get("route") or "-")
 
 
@@ -568,7 +569,21 @@ def traces(rng, tier, B):
     for _ in range(110 if q else 3000):
         a, b = operands()
         out.append(trace_case(a, b, random_steps(rng), "random"))
-    return out + [assign_twin(c) for c in out]
+    out = out + [assign_twin(c) for c in out]
+    # the same programs with abnormal exits (formatting into failing / panicking sinks, panicking comparators) before
+    # the program and between its steps: the same Coq term when healthy
+    abn = []
+    for c, route in zip(_spread(out, 60 if q else 900), ABN_TRACE_ROUTES * 1000):
+        abn.append(dict(c, route=route, family=c["family"] + "-abnormal-exits"))
+    return out + abn
+
+
+ABN_TRACE_ROUTES = ["b", "p", "u", "fbpu", "bp", "f"]
+
+
+def _spread(xs, n):
+    import _driver
+    return _driver.spread(xs, n)
 
 
 def routed(rng, pairs, B, tier):
@@ -588,6 +603,17 @@ def routed(rng, pairs, B, tier):
     some(100 if q else 1000, "ti")
     some(200 if q else 2000, "i")
     some(200 if q else 2000, "aclsti")
+    # histories that end abnormally before the script (executor: src/preamble.rs) and hidden-state inheritance
+    some(40 if q else 800, "f")
+    some(70 if q else 1500, "b")
+    some(40 if q else 800, "p")
+    some(70 if q else 1500, "u")
+    some(40 if q else 800, "fbpu")
+    some(20 if q else 400, "bh")
+    some(20 if q else 400, "pt")
+    some(20 if q else 400, "uh")
+    some(20 if q else 400, "bai")
+    some(20 if q else 400, "aclstifbpuh")
     for a in B:                                          # the constants as operands
         for k in (0, ONE_BITS):
             out.append({"op": "all", "a": hx(a), "b": hx(k), "route": "c"})
@@ -638,6 +664,11 @@ def shrink(c):
     out = []
     if c["op"] == "trace":
         st = [tuple(t) for t in c["steps"]]
+        if c.get("route"):
+            out.append(dict(c, route=""))                     # the plain program first
+            for ch in c["route"]:
+                if len(c["route"]) > 1:
+                    out.append(dict(c, route=c["route"].replace(ch, "")))
         for k in reversed(range(len(st))):                    # drop a step nobody uses
             reg = k + 2
             if any(i == reg or j == reg for (_, i, j) in st[k + 1:]):
@@ -647,7 +678,7 @@ def shrink(c):
         if any(o in ASSIGN_OF.values() for (o, _, _) in st):
             back = {v: k for k, v in ASSIGN_OF.items()}
             out.append(dict(c, steps=[[back.get(o, o), i, j] for (o, i, j) in st]))
-        return out[:20] + shrink_operands(c)
+        return out[:24] + shrink_operands(c)
     if c.get("route"):
         out.append(dict(c, route=""))                         # the plain script first
         for ch in c["route"]:
@@ -682,7 +713,11 @@ def build_lto(ctx):
     return rc == 0 and os.path.exists(binp), out, binp
 
 
-BULK_ROUTES = ["", "a", "l", "c", "t", "i", "al", "aclsti"]
+BULK_ROUTES = ["", "a", "l", "c", "t", "i", "al", "aclsti"] * 16
+# abnormal-exit histories in the bulk: the cheap ones (panicking closures) every 16th pair, the formatting ones
+# (milliseconds each) twice per 128
+for _k, _r in ((8, "u"), (25, "uh"), (42, "u"), (59, "ul"), (76, "ua"), (93, "ut"), (110, "u"), (127, "uh"), (64, "bh"), (0, "fp")):
+    BULK_ROUTES[_k] = _r
 
 
 def extra(ctx, known):
